@@ -936,6 +936,144 @@ def esl_vec_DEntropy [VNum α] (p : Array α) (n : Int) : Option (α) := do
       pure H
   pure H
 
+/-- `esl_vec_FNorm` (esl_vectorops.c:1152) -/
+def esl_vec_FNorm [VNum α] {ω : Type} [VMix α ω] [VNum ω] (vec : Array α) (n : Int) : Option (Array α) := do
+  let t1 ← esl_vec_FSum vec n
+  let sum := t1
+  let vec ← if (!(VNum.eq (VMix.widen sum : ω) (VNum.ofNat 0 : ω))) then do
+      let vec ← loop 0 n vec fun i vec => do
+          let t2 ← rd vec i
+          let t3 := t2 / sum
+          let vec ← wr vec i t3
+          pure vec
+      pure vec
+    else do
+      let vec ← loop 0 n vec fun i vec => do
+          let t4 : ω := (VNum.ofNat 1 : ω) / (VMix.widen (VNum.ofNat (n).toNat : α) : ω)
+          let vec ← wr vec i (VMix.narrow t4)
+          pure vec
+      pure vec
+  pure vec
+
+/-- `esl_vec_FLog` (esl_vectorops.c:1236) -/
+def esl_vec_FLog [VInf α] {ω : Type} [VMix α ω] [VNum ω] (vec : Array α) (n : Int) : Option (Array α) := do
+  let vec ← loop 0 n vec fun i vec => do
+      let t1 ← rd vec i
+      let t3 ← if (VOrd.lt (VNum.ofNat 0 : ω) (VMix.widen t1 : ω)) then do
+          let t2 ← rd vec i
+          pure (VInf.log t2)
+        else do
+          pure (VInf.neg (VInf.inf : α))
+      let vec ← wr vec i t3
+      pure vec
+  pure vec
+
+/-- `esl_vec_FLog2` (esl_vectorops.c:1250) -/
+def esl_vec_FLog2 [VInf α] {ω : Type} [VMix α ω] [VNum ω] (vec : Array α) (n : Int) : Option (Array α) := do
+  let vec ← loop 0 n vec fun i vec => do
+      let t1 ← rd vec i
+      let t3 ← if (VOrd.lt (VNum.ofNat 0 : ω) (VMix.widen t1 : ω)) then do
+          let t2 ← rd vec i
+          pure (VNum.log2 t2)
+        else do
+          pure (VInf.neg (VInf.inf : α))
+      let vec ← wr vec i t3
+      pure vec
+  pure vec
+
+/-- `esl_vec_FExp` (esl_vectorops.c:1277) -/
+def esl_vec_FExp [VInf α] (vec : Array α) (n : Int) : Option (Array α) := do
+  let vec ← loop 0 n vec fun i vec => do
+      let t1 ← rd vec i
+      let vec ← wr vec i (VInf.exp t1)
+      pure vec
+  pure vec
+
+/-- `esl_vec_FExp2` (esl_vectorops.c:1289) -/
+def esl_vec_FExp2 [VInf α] (vec : Array α) (n : Int) : Option (Array α) := do
+  let vec ← loop 0 n vec fun i vec => do
+      let t1 ← rd vec i
+      let vec ← wr vec i (VInf.exp2 t1)
+      pure vec
+  pure vec
+
+/-- `esl_vec_FLogSum` (esl_vectorops.c:1333) -/
+def esl_vec_FLogSum [VInf α] {ω : Type} [VMix α ω] [VNum ω] (vec : Array α) (n : Int) : Option (α) := do
+  let t1 ← esl_vec_FMax vec n
+  let max_ := t1
+  if (CElem.eq max_ (VInf.inf : α)) then
+    pure (VInf.inf : α)
+  else
+    let sum := (CElem.ofNat 0 : α)
+    let sum ← loop 0 n sum fun i sum => do
+        let t2 ← rd vec i
+        let t3 : ω := (VMix.widen max_ : ω) - (VNum.ofNat 50 : ω)
+        let sum ← if (VOrd.lt t3 (VMix.widen t2 : ω)) then do
+            let t4 ← rd vec i
+            let t5 ← CElem.sub t4 max_
+            let sum ← CElem.add sum (VInf.exp t5)
+            pure sum
+          else pure sum
+        pure sum
+    let sum ← CElem.add (VInf.log sum) max_
+    pure sum
+
+/-- `esl_vec_FLog2Sum` (esl_vectorops.c:1363) -/
+def esl_vec_FLog2Sum [VInf α] {ω : Type} [VMix α ω] [VNum ω] (vec : Array α) (n : Int) : Option (α) := do
+  let t1 ← esl_vec_FMax vec n
+  let max_ := t1
+  if (CElem.eq max_ (VInf.inf : α)) then
+    pure (VInf.inf : α)
+  else
+    let sum := (CElem.ofNat 0 : α)
+    let sum ← loop 0 n sum fun i sum => do
+        let t2 ← rd vec i
+        let t3 : ω := (VMix.widen max_ : ω) - (VNum.ofNat 50 : ω)
+        let sum ← if (VOrd.lt t3 (VMix.widen t2 : ω)) then do
+            let t4 ← rd vec i
+            let t5 ← CElem.sub t4 max_
+            let sum ← CElem.add sum (VInf.exp2 t5)
+            pure sum
+          else pure sum
+        pure sum
+    let sum ← CElem.add (VNum.log2 sum) max_
+    pure sum
+
+/-- `esl_vec_FLogNorm` (esl_vectorops.c:1184) -/
+def esl_vec_FLogNorm [VInf α] {ω : Type} [VMix α ω] [VInf ω] (vec : Array α) (n : Int) : Option (Array α) := do
+  let t1 ← esl_vec_FLogSum vec n
+  let denom := t1
+  let t2 : ω := (VInf.neg (VNum.ofNat 1 : ω)) * (VMix.widen denom : ω)
+  let vec ← esl_vec_FIncrement vec n (VMix.narrow t2)
+  let vec ← esl_vec_FExp vec n
+  let vec ← esl_vec_FNorm vec n
+  pure vec
+
+/-- `esl_vec_FLog2Norm` (esl_vectorops.c:1204) -/
+def esl_vec_FLog2Norm [VInf α] {ω : Type} [VMix α ω] [VInf ω] (vec : Array α) (n : Int) : Option (Array α) := do
+  let t1 ← esl_vec_FLog2Sum vec n
+  let denom := t1
+  let t2 : ω := (VInf.neg (VNum.ofNat 1 : ω)) * (VMix.widen denom : ω)
+  let vec ← esl_vec_FIncrement vec n (VMix.narrow t2)
+  let vec ← esl_vec_FExp2 vec n
+  let vec ← esl_vec_FNorm vec n
+  pure vec
+
+/-- `esl_vec_FEntropy` (esl_vectorops.c:1399) -/
+def esl_vec_FEntropy [VNum α] {ω : Type} [VMix α ω] [VNum ω] (p : Array α) (n : Int) : Option (α) := do
+  let H := (CElem.ofNat 0 : α)
+  let H ← loop 0 n H fun i H => do
+      let t1 ← rd p i
+      let H ← if (VOrd.lt (VNum.ofNat 0 : ω) (VMix.widen t1 : ω)) then do
+          let t2 ← rd p i
+          let t3 ← rd p i
+          let t4 ← CElem.mul t2 (VNum.log2 t3)
+          let H ← CElem.sub H t4
+          pure H
+        else pure H
+      pure H
+  pure H
+
 /-- `esl_vec_DCDF` (esl_vectorops.c:1482) -/
 def esl_vec_DCDF (p : Array α) (n : Int) (cdf : Array α) : Option (Array α) := do
   let t1 ← rd p 0
